@@ -23,6 +23,18 @@ theorem ProbeKeep.receiveIndirectAck (p : Probe) (src : Id) (n : Nat) : ProbeKee
   · exact Or.inl rfl
   · split <;> exact Or.inl rfl
 
+theorem Probe.takeFailed_number (p : Probe) : p.takeFailed.2.number = p.number := by
+  unfold Probe.takeFailed; split <;> rfl
+
+theorem Probe.receiveAck_number (p : Probe) (src : Id) (n : Nat) : (p.receiveAck src n).number = p.number := by
+  unfold Probe.receiveAck; split <;> rfl
+
+theorem Probe.receiveIndirectAck_number (p : Probe) (src : Id) (n : Nat) : (p.receiveIndirectAck src n).number = p.number := by
+  unfold Probe.receiveIndirectAck
+  split
+  · rfl
+  · split <;> rfl
+
 theorem ProbeKeep.takeFailed (p : Probe) : ProbeKeep p p.takeFailed.2 := by
   unfold Probe.takeFailed ProbeKeep; split
   · exact Or.inr rfl
@@ -34,7 +46,7 @@ theorem ProbeKeep.takeFailed (p : Probe) : ProbeKeep p p.takeFailed.2 := by
 def CtlKeep (f : State → State) : Prop :=
   ∀ s, (f s).ms = s.ms ∧ (f s).numActive = s.numActive ∧ (f s).updates = s.updates ∧
     (f s).custom = s.custom ∧ (f s).cursor = s.cursor ∧ (f s).id = s.id ∧ (f s).inc = s.inc ∧
-    (f s).policy = s.policy ∧ ProbeKeep s.probe (f s).probe
+    (f s).policy = s.policy ∧ ProbeKeep s.probe (f s).probe ∧ (f s).probe.number = s.probe.number
 
 /-- `f` leaves membership, counters and both backlogs alone (it may also touch identity, incarnation, policy) -/
 def CtlOnly (f : State → State) : Prop :=
@@ -99,8 +111,8 @@ include B
 theorem Base.ctl (f : State → State)
     (h : ∀ s, (f s).ms = s.ms ∧ (f s).numActive = s.numActive ∧ (f s).updates = s.updates ∧
       (f s).custom = s.custom ∧ (f s).cursor = s.cursor ∧ (f s).id = s.id ∧ (f s).inc = s.inc ∧
-      (f s).policy = s.policy ∧ ProbeKeep s.probe (f s).probe := by
-        intro s; exact ⟨rfl, rfl, rfl, rfl, rfl, rfl, rfl, rfl, by first | exact Or.inl rfl | exact Or.inr rfl⟩) :
+      (f s).policy = s.policy ∧ ProbeKeep s.probe (f s).probe ∧ (f s).probe.number = s.probe.number := by
+        intro s; exact ⟨rfl, rfl, rfl, rfl, rfl, rfl, rfl, rfl, by first | exact Or.inl rfl | exact Or.inr rfl, rfl⟩) :
     Pres P (modS f) := B.modCtl f h
 
 theorem Base.chooseLoop (w : Nat) (pick : Member → Bool) (l out : List Member) (seen : Nat) :
@@ -259,7 +271,7 @@ end
     write identity, incarnation, policy, connection state, token, configuration) -/
 def IdCtl (f : State → State) : Prop :=
   ∀ s, (f s).ms = s.ms ∧ (f s).numActive = s.numActive ∧ (f s).updates = s.updates ∧
-    (f s).custom = s.custom ∧ (f s).cursor = s.cursor ∧ ProbeKeep s.probe (f s).probe
+    (f s).custom = s.custom ∧ (f s).cursor = s.cursor ∧ ProbeKeep s.probe (f s).probe ∧ (f s).probe.number = s.probe.number
 
 section
 variable {E : Env} {P : State → Prop} {okU : Member → Prop} (B : Base E P okU)
@@ -270,14 +282,14 @@ include B modId
 
 theorem Base.reset_of : Pres P Foca.reset := by
   unfold Foca.reset
-  exact modId _ (fun s => ⟨rfl, rfl, rfl, rfl, rfl, Or.inr rfl⟩)
+  exact modId _ (fun s => ⟨rfl, rfl, rfl, rfl, rfl, Or.inr rfl, rfl⟩)
 
 theorem Base.changeIdentity_of (i : Id) (p : Policy) : Pres P (Foca.changeIdentity E i p) := by
   unfold Foca.changeIdentity
   refine Pres.getS_with (fun s hs => ?_)
   pres
   all_goals first
-    | exact modId _ (fun s => ⟨rfl, rfl, rfl, rfl, rfl, Or.inl rfl⟩)
+    | exact modId _ (fun s => ⟨rfl, rfl, rfl, rfl, rfl, Or.inl rfl, rfl⟩)
     | exact B.reset_of modId
     | exact B.addUpdate _ (B.ownDown s hs)
     | exact B.gossip
@@ -294,7 +306,7 @@ theorem Base.handleSelfUpdate_of (inc : Nat) (st : St) : Pres P (Foca.handleSelf
     | exact B.attemptRejoin_of modId
     | exact B.becomeUndead
     | exact B.gossip
-    | exact modId _ (fun s => ⟨rfl, rfl, rfl, rfl, rfl, Or.inl rfl⟩)
+    | exact modId _ (fun s => ⟨rfl, rfl, rfl, rfl, rfl, Or.inl rfl, rfl⟩)
 
 theorem Base.reuseDownIdentity_of : Pres P Foca.reuseDownIdentity := by
   unfold Foca.reuseDownIdentity
@@ -332,7 +344,7 @@ theorem Full.probeSuspectFailed : Pres P (Foca.probeSuspectFailed E) := by
   dsimp only
   refine PresAt.bind (PresAt.modS (fun _ => ?_)) (fun _ => ?_)
   · exact Pres.modS_at (F.toBase.ctl (fun s => { s with probe := s.probe.takeFailed.2 })
-      (fun s => ⟨rfl, rfl, rfl, rfl, rfl, rfl, rfl, rfl, ProbeKeep.takeFailed _⟩)) s hs
+      (fun s => ⟨rfl, rfl, rfl, rfl, rfl, rfl, rfl, rfl, ProbeKeep.takeFailed _, Probe.takeFailed_number _⟩)) s hs
   · split
     · rename_i failed hf
       refine Pres.bind (F.toBase.applyExistingReport _ _ (F.failedOk s failed hs hf)) (fun r => ?_)
@@ -408,8 +420,8 @@ theorem Full.reactToMessage (h : Header) : Pres P (Foca.reactToMessage E h) := b
   pres
   all_goals first
     | exact F.toBase.ctl _
-    | exact F.toBase.ctl _ (fun s => ⟨rfl, rfl, rfl, rfl, rfl, rfl, rfl, rfl, ProbeKeep.receiveAck _ _ _⟩)
-    | exact F.toBase.ctl _ (fun s => ⟨rfl, rfl, rfl, rfl, rfl, rfl, rfl, rfl, ProbeKeep.receiveIndirectAck _ _ _⟩)
+    | exact F.toBase.ctl _ (fun s => ⟨rfl, rfl, rfl, rfl, rfl, rfl, rfl, rfl, ProbeKeep.receiveAck _ _ _, Probe.receiveAck_number _ _ _⟩)
+    | exact F.toBase.ctl _ (fun s => ⟨rfl, rfl, rfl, rfl, rfl, rfl, rfl, rfl, ProbeKeep.receiveIndirectAck _ _ _, Probe.receiveIndirectAck_number _ _ _⟩)
     | exact F.sendMessage _ _
     | exact F.handleSelfUpdate _ _
 
